@@ -283,6 +283,12 @@ func (e *emitter) Header(
 }
 
 func (e *emitter) Message(data []byte, streamEnded bool) error {
+	if data == nil && streamEnded {
+		// The end of a stream that carries no message (see adapter.Data): only END_STREAM is
+		// passed on, not a zero-length message.
+		return e.sink.Data(nil, true)
+	}
+
 	// Applies compression to `data` depending on `adapter`'s state.
 	if e.adapter.compressed {
 		switch e.adapter.encoding {
